@@ -14,7 +14,7 @@ RULE = ("case = (structured script: elements with optional id, classes (no blank
         "differentially: the name tree recovered from the indentation equals the tree an independent lexer recovers from the HTML output of the same abbreviation. "
         "Exhaustive layer: every C01 operator skeleton with ≤ 3 elements (groups nested ≤ 2, optional *2) in all three syntaxes. "
         "Non-trivial: depth ≥ 3, or width ≥ 3 with a self-closing/text-only-content element before a sibling; distinct by (script, syntax, options).")
-ASSUME = ["ids are written before classes (the statement's `name#id.class` form); text-only items and `>` after groups/self-closed elements are not generated",
+ASSUME = ["ids are written before classes (the statement's `name#id.class` form); `>` after groups/self-closed elements is not generated; text-only items occur only in the dedicated text-parent layer, where the layout of the text itself is not asserted (only that every element keeps its own line at its depth)",
           "attribute values contain no line breaks; names are not snippet keys (`select` neutralised)"]
 
 SYN = {
@@ -197,7 +197,58 @@ def check_lines_x(case, rec):
     check_lines(case, rec, True)
 
 
-CHECKS = {'lines': check_lines, 'lines-x': check_lines_x}
+def check_text_parent(case, rec):
+    """elements below a text-only item that keeps its children (its text carries a field, or it is a text snippet such as `c`): how the text
+    itself is laid out is not stated, but every ELEMENT still gets a line of its own, indented by its depth in the tree"""
+    abbr, syn, elements = case['abbr'], case['syntax'], case['elements']
+    ind = case.get('indent', '\t')
+    rec.nontrivial(distinct=True)
+    rec.cls('text-only-parent')
+    rec.evals()
+    try:
+        with guard():
+            got = expand(abbr, {'syntax': syn, 'options': {'output.indent': ind}})
+    except Exception as e:
+        rec.fail(core.exc_bucket(e), '%r (%s): %s: %s' % (abbr, syn, type(e).__name__, core.short(str(e), 150)))
+        return
+    lines = got.split('\n')
+    at = 0
+    for name, depth in elements:
+        head = SYN[syn]['beforeName'] + name
+        found = None
+        for i in range(at, len(lines)):
+            body = lines[i]
+            k = 0
+            while body.startswith(ind, k):
+                k += len(ind)
+            if body[k:].startswith(head):
+                found = (i, k // len(ind))
+                break
+        if found is None:
+            rec.fail('indent-syntax:element-without-own-line', 'abbr %r syntax %s: no line (from line %d on) starts with %r\n output %r' % (abbr, syn, at, head, got))
+            return
+        if found[1] != depth:
+            rec.fail('indent-syntax:indentation', 'abbr %r syntax %s: element %r is indented %d level(s), its depth is %d\n output %r' % (abbr, syn, name, found[1], depth, got))
+            return
+        at = found[0] + 1
+
+
+CHECKS = {'lines': check_lines, 'lines-x': check_lines_x, 'text-parent': check_text_parent}
+
+
+def text_parent_cases():
+    # names chosen so that none is a prefix of another (the text of the text-only item may be glued to a head)
+    parents = [('', []), ('ul>', [('ul', 0)]), ('section>nav>', [('section', 0), ('nav', 1)])]
+    texts = ['{x${1}}', '{${1}}', '{t${0} u}', 'c', '{${1:ph} w}']
+    kids = [('zp', [('zp', 0)]), ('li#only', [('li', 0)]), ('zp+zq', [('zp', 0), ('zq', 0)]), ('zp.note>em', [('zp', 0), ('em', 1)]), ('zq*2', [('zq', 0), ('zq', 0)]),
+            ('zp>em+zq', [('zp', 0), ('em', 1), ('zq', 1)])]
+    for ptxt, pels in parents:
+        for t in texts:
+            for ktxt, kels in kids:
+                base = len(pels) + 1      # the text-only item is a level of the tree
+                for syn in ('haml', 'pug', 'slim'):
+                    for ind in ('\t', '  '):
+                        yield {'abbr': ptxt + t + '>' + ktxt, 'syntax': syn, 'indent': ind, 'elements': [list(e) for e in pels] + [[n, base + d] for n, d in kels]}
 
 
 def shard_skeletons(ctx, shard, nshards, n):
@@ -278,3 +329,5 @@ def run(ctx):
     ctx.run_parallel('shard_skeletons', extra=(n,))
     ctx.exhaustive('every operator skeleton with ≤ %d elements (groups nested ≤ 2, optional *2) × haml/pug/slim' % n)
     ctx.run_parallel('shard_random', extra=(ctx.pick(300, 4000),))
+    ctx.run_cases('text-parent', text_parent_cases())
+    ctx.exhaustive('3 parent chains × 5 text-only items that keep their children × 6 child shapes × haml/pug/slim × 2 indents: every element on its own line at its depth')
